@@ -34,10 +34,10 @@ def confirm(name, wt):
     ran.append(f'tests with patch: {out1.strip()}')
     rc2, out2 = sh(demo_cmd(dst, wt), cwd='/tmp')
     ran.append(f'demo with patch: exit {rc2}: {out2.strip()[-300:]}')
-    sh(f'git -C {wt} stash -q')
+    sh(f'git -C {wt} apply -R {dst}/patch.diff')
     rc3, out3 = sh(demo_cmd(dst, wt), cwd='/tmp')
     ran.append(f'demo without patch: exit {rc3}: {out3.strip()[-200:]}')
-    sh(f'git -C {wt} stash pop -q')
+    sh(f'git -C {wt} apply {dst}/patch.diff')
     ok = '117 passed' in out1 and rc2 != 0 and rc3 == 0
     meta = {}
     try:
